@@ -66,6 +66,10 @@ def obligations(tier):
            '6x4x3x3 = 216 vectors (content kinds incl. all-zero files)', [REPO_FUNCS['rs'], REPO_FUNCS['wp']], module=H, func='e_pre', timeout=600, shards=2),
         Ob('E.cfg', 'E', 'cipher/hash/encryption x chunk bounds x concurrency {1,2,5} x size', '5x5x3x3 = 225 vectors',
            [REPO_FUNCS['sn'], REPO_FUNCS['rs']], module=H, func='e_cfg', timeout=600, shards=2),
+        Ob('E.slow', 'E', 'a store whose chunk uploads take 30 ms (longer than the 25 ms queue time-out of the producer) with 3..5 times more chunks than the queue holds: round trip exact',
+           '2 concurrency x 2 configurations x 2 sizes = 8 (real time, ~2 s each)', [REPO_FUNCS['sn'], REPO_FUNCS['rs']], module=H, func='e_slow', timeout=600, shards=4),
+        Ob('E.piece', 'E', 'file sizes at and around multiples of the 16 MiB read-piece size (one or two such files in the stream), random and all-zero content, encrypted or not, 64 KiB..1 MiB chunks',
+           '6 sizes x 2 contents x 2 configurations x 1-or-2 large files = 48 vectors', [REPO_FUNCS['sn'], REPO_FUNCS['rs']], module=H, func='e_piece', timeout=900, shards=4),
         Ob('E.full', 'E', 'cross product of all pools, 1/97 residue class selected by a linear congruence', 'every 1931st point of the 5.9M-point product = 3045 vectors',
            [REPO_FUNCS['sn'], REPO_FUNCS['rs']], module=H, func='e_full', timeout=3600, tiers=('thorough',), shards=16),
     ]
